@@ -53,46 +53,57 @@ package primitive
 
 //@ func (ProtocolVersion).Uses4BytesCollectionLength
 //@   prop C19
+//@   inline
 //@   ensures table: declared(self) ==> result == (self != ProtocolVersion2)
 
 //@ func (ProtocolVersion).Uses4BytesQueryFlags
 //@   prop C19
+//@   inline
 //@   ensures table: declared(self) ==> result == (self == ProtocolVersion5 || self == ProtocolVersionDse1 || self == ProtocolVersionDse2)
 
 //@ func (ProtocolVersion).SupportsBatchQueryFlags
 //@   prop C19
+//@   inline
 //@   ensures table: declared(self) ==> result == (self != ProtocolVersion2)
 
 //@ func (ProtocolVersion).SupportsPrepareFlags
 //@   prop C19
+//@   inline
 //@   ensures table: declared(self) ==> result == (self == ProtocolVersion5 || self == ProtocolVersionDse2)
 
 //@ func (ProtocolVersion).SupportsResultMetadataId
 //@   prop C19
+//@   inline
 //@   ensures table: declared(self) ==> result == (self == ProtocolVersion5 || self == ProtocolVersionDse2)
 
 //@ func (ProtocolVersion).SupportsReadWriteFailureReasonMap
 //@   prop C19
+//@   inline
 //@   ensures table: declared(self) ==> result == (self == ProtocolVersion5 || self == ProtocolVersionDse1 || self == ProtocolVersionDse2)
 
 //@ func (ProtocolVersion).SupportsWriteTimeoutContentions
 //@   prop C19
+//@   inline
 //@   ensures table: declared(self) ==> result == (self == ProtocolVersion5)
 
 //@ func (ProtocolVersion).SupportsModernFramingLayout
 //@   prop C19
+//@   inline
 //@   ensures table: declared(self) ==> result == (self == ProtocolVersion5)
 
 //@ func (ProtocolVersion).SupportsUnsetValues
 //@   prop C19
+//@   inline
 //@   ensures table: declared(self) ==> result == (self != ProtocolVersion2 && self != ProtocolVersion3)
 
 //@ func (ProtocolVersion).FrameHeaderLengthInBytes
 //@   prop C19
+//@   inline
 //@   ensures table: declared(self) ==> result == ite(self == ProtocolVersion2, 8, 9)
 
 //@ func (ProtocolVersion).SupportsQueryFlag
 //@   prop C19
+//@   inline
 //@   ensures keyspace: declared(self) && flag == QueryFlagWithKeyspace ==> result == (self == ProtocolVersion5 || self == ProtocolVersionDse2)
 //@   ensures now: declared(self) && flag == QueryFlagNowInSeconds ==> result == (self == ProtocolVersion5)
 //@   ensures timestamp: declared(self) && (flag == QueryFlagDefaultTimestamp || flag == QueryFlagValueNames) ==> result == (self != ProtocolVersion2)
@@ -101,12 +112,14 @@ package primitive
 
 //@ func (ProtocolVersion).SupportsCompression
 //@   prop C19
+//@   inline
 //@   ensures snappy: declared(self) && compression == CompressionSnappy ==> result == (self != ProtocolVersion5)
 //@   ensures others: compression == CompressionNone || compression == CompressionLz4 ==> result
 //@   ensures unknown: !declared(compression) ==> !result
 
 //@ func (ProtocolVersion).SupportsSchemaChangeTarget
 //@   prop C19
+//@   inline
 //@   ensures base: target == SchemaChangeTargetKeyspace || target == SchemaChangeTargetTable ==> result
 //@   ensures type: declared(self) && target == SchemaChangeTargetType ==> result == (self != ProtocolVersion2)
 //@   ensures fn: declared(self) && (target == SchemaChangeTargetFunction || target == SchemaChangeTargetAggregate) ==> result == (self != ProtocolVersion2 && self != ProtocolVersion3)
@@ -114,22 +127,26 @@ package primitive
 
 //@ func (ProtocolVersion).SupportsTopologyChangeType
 //@   prop C19
+//@   inline
 //@   ensures base: t == TopologyChangeTypeNewNode || t == TopologyChangeTypeRemovedNode ==> result
 //@   ensures moved: declared(self) && t == TopologyChangeTypeMovedNode ==> result == (self != ProtocolVersion2)
 //@   ensures unknown: !declared(t) ==> !result
 
 //@ func (ProtocolVersion).SupportsDseRevisionType
 //@   prop C19
+//@   inline
 //@   ensures cancel: declared(self) && t == DseRevisionTypeCancelContinuousPaging ==> result == (self == ProtocolVersionDse1 || self == ProtocolVersionDse2)
 //@   ensures more: declared(self) && t == DseRevisionTypeMoreContinuousPages ==> result == (self == ProtocolVersionDse2)
 //@   ensures unknown: !declared(t) ==> !result
 
 //@ func (ProtocolVersion).IsDse
 //@   prop C19
+//@   inline
 //@   ensures table: result == (self == ProtocolVersionDse1 || self == ProtocolVersionDse2)
 
 //@ func (ProtocolVersion).IsOss
 //@   prop C19
+//@   inline
 //@   ensures table: result == (declared(self) && self != ProtocolVersionDse1 && self != ProtocolVersionDse2)
 
 // ---- C03: the length each notation reports equals the number of bytes its encoder writes ----------------------
